@@ -24,8 +24,12 @@ version%2 padding lines that shift every definition).  Consecutive versions alwa
 
 History ops
 -----------
-['create', mid] | ['rewrite', mid] | ['touch', mid] | ['put', mid]   (put = create if absent else rewrite)
+['create', mid] | ['rewrite', mid, d] | ['touch', mid, d] | ['put', mid, d]   (put = create if absent else rewrite)
 ['req', probe_index]
+d (optional, default 'f') is the direction in which the modification moves the file's mtime:
+'f' = to the next integer second above every mtime the file ever had, 'b' = to the integer second
+below every mtime the file ever had (a restored backup / VCS checkout / cp -p).  Either way the new
+mtime differs from the current one and was never used for this file before.
 """
 import re
 
@@ -397,7 +401,26 @@ def chain_count(mods, reqs, length):
 
 
 def op_code(op):
-    return {'rewrite': 'E', 'touch': 'T', 'put': 'P', 'create': 'C', 'req': 'R'}[op[0]] + str(op[1])
+    """E/T/P/C/R + target; lower case (e/t/p) = the modification moves the mtime backward"""
+    c = {'rewrite': 'E', 'touch': 'T', 'put': 'P', 'create': 'C', 'req': 'R'}[op[0]]
+    if len(op) > 2 and op[2] == 'b' and op[0] != 'create':
+        c = c.lower()
+    return c + str(op[1])
+
+
+def with_directions(hist, rng, p_back=0.5):
+    """copy of hist in which every modification carries a seed-determined mtime direction"""
+    out = []
+    for op in hist:
+        if op[0] in ('rewrite', 'touch', 'put'):
+            out.append([op[0], op[1], 'b' if rng.random() < p_back else 'f'])
+        else:
+            out.append(list(op))
+    return out
+
+
+def forward_only(hist):
+    return [[op[0], op[1], 'f'] if op[0] in ('rewrite', 'touch', 'put') else list(op) for op in hist]
 
 
 # --------------------------------------------------------------------------------------
@@ -508,7 +531,7 @@ def random_history(rng, spec, max_len=40):
             present.add(x)
             hist.append(['create', x])
         elif r < 0.88:
-            hist.append(['rewrite', rng.choice(sorted(present))])
+            hist.append(['rewrite', rng.choice(sorted(present)), 'b' if rng.random() < 0.4 else 'f'])
         else:
-            hist.append(['touch', rng.choice(sorted(present))])
+            hist.append(['touch', rng.choice(sorted(present)), 'b' if rng.random() < 0.4 else 'f'])
     return hist
